@@ -126,6 +126,30 @@ def A1_inventory(rep, flow):
         cached_result_rule(rep, flow, f, d)
     for f, d in inv["defaults"]:
         rep.note(f"{f.fq} has a mutable default argument {d}: reported only if it is mutated (A5) or escapes (A3)")
+        _mutable_default_rule(rep, f)
+
+
+def _mutable_default_rule(rep, f):
+    """a parameter whose default is a dict / list / set display is ONE object for all calls: storing into it, or handing
+    it out, makes a call's result depend on (and change with) the calls before and after it"""
+    a = f.node.args
+    params = a.posonlyargs + a.args
+    defaults = [None] * (len(params) - len(a.defaults)) + list(a.defaults)
+    pairs = list(zip(params, defaults)) + list(zip(a.kwonlyargs, a.kw_defaults))
+    for p_, dflt in pairs:
+        if not isinstance(dflt, (ast.Dict, ast.List, ast.Set)) and not (isinstance(dflt, ast.Call) and isinstance(dflt.func, ast.Name) and dflt.func.id in ("dict", "list", "set") and not dflt.args):
+            continue
+        name = p_.arg
+        rebound = any(isinstance(n, ast.Assign) and any(isinstance(t, ast.Name) and t.id == name for t in n.targets) for n in ast.walk(f.node))
+        if rebound:
+            continue        # `x = x or {}` / `x = dict(x)`: the default itself is not what is used
+        stored = [n for n in ast.walk(f.node) if (isinstance(n, (ast.Assign, ast.AugAssign)) and any(isinstance(t, ast.Subscript) and isinstance(t.value, ast.Name) and t.value.id == name for t in (n.targets if isinstance(n, ast.Assign) else [n.target])))
+                  or (isinstance(n, ast.Call) and isinstance(n.func, ast.Attribute) and isinstance(n.func.value, ast.Name) and n.func.value.id == name and n.func.attr in ("append", "extend", "update", "setdefault", "add", "insert", "pop", "clear"))]
+        returned = [n for n in ast.walk(f.node) if isinstance(n, ast.Return) and isinstance(n.value, ast.Name) and n.value.id == name]
+        if stored and returned:
+            rep.finding("A1", f"{f.fq}:default:{name}", f"{pyfacts.where(f, stored[0])}: `{name}` defaults to a {type(dflt).__name__.lower()} display - ONE object shared by every call that does not pass it; {f.qualname} fills it [{pyfacts.norm_stmt(stored[0])[:60]}] and returns it: a result handed out earlier changes with the next call, and a call's result contains what earlier calls left")
+        elif stored or returned:
+            rep.finding("A1", f"{f.fq}:default:{name}", f"{pyfacts.where(f, (stored or returned)[0])}: `{name}` defaults to a {type(dflt).__name__.lower()} display - ONE object shared by every call that does not pass it - and {f.qualname} {'stores into' if stored else 'returns'} it [{pyfacts.norm_stmt((stored or returned)[0])[:60]}]: state leaks from one call into the next")
 
 
 IMMUTABLE_ANN = {"int", "str", "bool", "float", "bytes", "None", "complex", "frozenset"}
